@@ -190,6 +190,9 @@ def motion_notify_rule(ctx, cg=None):
 def run(ctx):
     ctx.attempt(history_state_reset_rule, ctx)
     ctx.attempt(live_embedding_rule, ctx)
+    from ..shared import memo_result_escape_rule as _memo_result_escape_rule
+
+    ctx.attempt(_memo_result_escape_rule, ctx, "R14.24", lambda f: f.qualname.startswith("EasyFEA."), 20)
     ctx.attempt(per_problem_memo_rule, ctx)
     ctx.attempt(history_walk_rule, ctx)
     from ..shared import notify_last_rule as _notify_last_rule
